@@ -49,7 +49,7 @@ def BOUNDS(tier):
 
 def REQUIRED_COVER(tier):
     return {'generic:accept', 'generic:boc', 'generic:nested', 'header:accept', 'account:accept', 'account:extra-currency', 'account:pruned-account', 'mut:expected-hash', 'mut:data-bit',
-            'mut:drop-ref', 'mut:dup-ref', 'mut:swap-ref', 'mut:pruned-hash', 'mut:pruned-depth', 'mut:pruned-level', 'mut:pruned-raw', 'mut:root-type', 'mut:root-hash', 'mut:claimed-pruned', 'mut:claimed-other',
+            'mut:drop-ref', 'mut:dup-ref', 'mut:swap-ref', 'mut:pruned-hash', 'mut:pruned-depth', 'mut:pruned-level', 'mut:pruned-raw', 'mut:stored-hashes', 'mut:root-type', 'mut:root-hash', 'mut:claimed-pruned', 'mut:claimed-other',
             'mut:claimed-flip', 'mut:address', 'mut:block-id', 'mut:roots', 'mut:state-bit', 'mut:block-bit'}
 
 
@@ -322,6 +322,36 @@ def case_generic(rec, name, nmax):
             pass
         else:
             continue                      # the mutation did not change anything that is committed (cannot happen for the generated faults)
+        if tag == 'mut:data-bit' and not desc.endswith('re-made)') and ('bit 0 flipped' in desc or 'appended' in desc or 'removed' in desc):
+            # the forger's BAG for the same fault (sixth session, wave 9): the changed cell and every ordinary cell above it are written in the
+            # 'with hashes' form and carry the hashes and depths of the ORIGINAL cells - a reader that believes stored hashes sees the original proof
+            twin = {}
+
+            def pair(o, x):
+                twin[(x.hash(), x.special)] = o
+                for a, b in zip(o.refs, x.refs):
+                    pair(a, b)
+            if len(m.refs) == len(proof.refs):
+                try:
+                    pair(proof, m)
+                    order = RBOC.topo([m])
+
+                    def sp(i, hs, ds, order=order, twin=twin):
+                        o = twin.get((order[i].hash(), order[i].special))
+                        if o is None or o.mask != order[i].mask:
+                            return hs, ds
+                        sig = [l for l in range(4) if l == 0 or (o.mask >> (l - 1)) & 1]
+                        return [o.hash(l) for l in sig], [o.depth(l) for l in sig]
+                    bag = RBOC.encode([m], order=order, with_hashes=lambda c: not c.special, stored_patch=sp)
+                except RC.RefCellError:
+                    bag = None
+                if bag is not None:
+                    rec.state(('mutant-bag', name, desc))
+                    must_reject(rec, 'mut:stored-hashes', f'{name}: {desc}, delivered as a bag whose ordinary cells carry the ORIGINAL cells\' stored hashes',
+                                lambda bag=bag: check_proof(Cell.one_from_boc(bag), H), 'case_generic', args, 'generic')
+                    if blockish:
+                        must_reject(rec, 'mut:stored-hashes', f'{name} (header check): {desc}, delivered as a bag with the original cells\' stored hashes',
+                                    lambda bag=bag: check_block_header_proof(Cell.one_from_boc(bag)[0], H, True), 'case_generic', args, 'header')
         lm = lib_or_none(m)
         rec.state(('mutant', name, desc))
         if lm is None:
